@@ -17,29 +17,42 @@ pub struct Plan {
     pub max_execs: u64,
     /// the plan consists of the base schedule only (one execution; nothing else is claimed)
     pub single: bool,
+    /// slow spawner factor of the delay-bounded base order (see Config::slow0)
+    pub slow0: u32,
+    /// visited-state pruning: no alternatives are generated beyond a state that was already expanded
+    /// with at most the same cost (the first visitor's subtree is explored anyway)
+    pub prune: bool,
 }
 
 impl Plan {
     pub fn full() -> Self {
-        Plan { order: Order::Pb, bound: None, fair_k: 0, horizon: 20_000, max_execs: 0, single: false }
+        Plan { order: Order::Pb, bound: None, fair_k: 0, horizon: 20_000, max_execs: 0, single: false, slow0: 1, prune: true }
     }
     pub fn pb(b: u32) -> Self {
-        Plan { order: Order::Pb, bound: Some(b), fair_k: 0, horizon: 20_000, max_execs: 0, single: false }
+        Plan { order: Order::Pb, bound: Some(b), fair_k: 0, horizon: 20_000, max_execs: 0, single: false, slow0: 1, prune: true }
     }
     pub fn db(b: u32) -> Self {
-        Plan { order: Order::Db, bound: Some(b), fair_k: 0, horizon: 20_000, max_execs: 0, single: false }
+        Plan { order: Order::Db, bound: Some(b), fair_k: 0, horizon: 20_000, max_execs: 0, single: false, slow0: 1, prune: true }
     }
     /// the non-preemptive base schedule alone: run the current thread until it blocks, then the lowest id
     pub fn base_np() -> Self {
-        Plan { order: Order::Pb, bound: Some(0), fair_k: 0, horizon: 20_000, max_execs: 0, single: true }
+        Plan { order: Order::Pb, bound: Some(0), fair_k: 0, horizon: 20_000, max_execs: 0, single: true, slow0: 1, prune: false }
     }
     /// the round-robin base schedule alone (identical to DB(0))
     pub fn base_rr() -> Self {
-        Plan { order: Order::Db, bound: Some(0), fair_k: 0, horizon: 20_000, max_execs: 0, single: true }
+        Plan { order: Order::Db, bound: Some(0), fair_k: 0, horizon: 20_000, max_execs: 0, single: true, slow0: 1, prune: false }
     }
     pub fn with_fair(mut self, k: u32, horizon: u32) -> Self {
         self.fair_k = k;
         self.horizon = horizon;
+        self
+    }
+    pub fn with_slow0(mut self, k: u32) -> Self {
+        self.slow0 = k;
+        self
+    }
+    pub fn without_pruning(mut self) -> Self {
+        self.prune = false;
         self
     }
     pub fn with_cap(mut self, n: u64) -> Self {
@@ -47,7 +60,7 @@ impl Plan {
         self
     }
     pub fn config(&self) -> Config {
-        Config { order: self.order, fair_k: self.fair_k, horizon: self.horizon }
+        Config { order: self.order, fair_k: self.fair_k, horizon: self.horizon, slow0: self.slow0, strict: true }
     }
     pub fn name(&self) -> String {
         let b = match (self.order, self.bound) {
@@ -57,6 +70,7 @@ impl Plan {
             (Order::Pb, Some(b)) => format!("PB({})", b),
             (Order::Db, Some(b)) => format!("DB({})", b),
         };
+        let b = if self.slow0 > 1 { format!("{}/S{}", b, self.slow0) } else { b };
         if self.fair_k > 0 {
             format!("{}+K{}+H{}", b, self.fair_k, self.horizon)
         } else {
@@ -77,6 +91,8 @@ pub struct Outcome {
     /// the bounded space was enumerated completely
     pub complete: bool,
     pub stopped: bool,
+    /// executions whose expansion was cut at an already expanded state
+    pub pruned: u64,
 }
 
 struct Item {
@@ -106,6 +122,7 @@ pub fn explore(
 ) -> Outcome {
     let mut out = Outcome::default();
     let mut stack: Vec<Item> = vec![Item { prefix: vec![], expect: None }];
+    let mut expanded: std::collections::HashMap<u128, u32> = std::collections::HashMap::new();
     while let Some(item) = stack.pop() {
         if plan.max_execs > 0 && out.executions >= plan.max_execs {
             return out; // complete = false
@@ -135,8 +152,26 @@ pub fn explore(
             costs.push(cost);
             cost += cost_of(plan.order, d.choice, d.cur_enabled);
         }
+        // visited-state pruning: stop expanding at the first state (past the replayed prefix) that was already
+        // expanded with at most the same cost
+        let mut limit = rec.decisions.len();
+        if plan.prune {
+            for i in item.prefix.len()..rec.decisions.len() {
+                let k = rec.decisions[i].key;
+                match expanded.get(&k) {
+                    Some(c0) if *c0 <= costs[i] => {
+                        limit = i;
+                        out.pruned += 1;
+                        break;
+                    }
+                    _ => {
+                        expanded.insert(k, costs[i]);
+                    }
+                }
+            }
+        }
         // push deeper alternatives first so that they are popped last (DFS explores shallow deviations first)
-        for i in (item.prefix.len()..rec.decisions.len()).rev() {
+        for i in (item.prefix.len()..limit).rev() {
             let d = &rec.decisions[i];
             for alt in (1..d.n_enabled).rev() {
                 let c = costs[i] + cost_of(plan.order, alt, d.cur_enabled);
